@@ -216,3 +216,29 @@ class Parser:
             self.expect(')')
             return e
         raise Untranslatable("unexpected token %r" % (v,))
+
+
+def local_binders(body):
+    """names bound by `let [mut] NAME` / `for NAME in` / closure `|NAME|`, in order of first appearance"""
+    import re as _re
+    out = []
+    for m in _re.finditer(r"\blet\s+(?:mut\s+)?([A-Za-z_]\w*)\b|\bfor\s+([A-Za-z_]\w*)\s+in\b|\|\s*([A-Za-z_]\w*)\s*\|", body):
+        name = m.group(1) or m.group(2) or m.group(3)
+        if name not in out and name != "_":
+            out.append(name)
+    return out
+
+
+def canon_locals(body, reference):
+    """rename the locals of a function body back to the reference names when it binds the same number of locals in
+    the same order (a pure renaming of locals is then invisible to the template matchers); otherwise unchanged"""
+    import re as _re
+    found = local_binders(body)
+    if len(found) != len(reference) or found == list(reference):
+        return body
+    tmp = {n: "\x00%d\x00" % i for i, n in enumerate(found)}
+    for n, t in tmp.items():
+        body = _re.sub(r"(?<![\w.])%s(?!\w)" % _re.escape(n), t, body)
+    for i, r in enumerate(reference):
+        body = body.replace("\x00%d\x00" % i, r)
+    return body
